@@ -29,7 +29,7 @@ theorem flatMap_map' {α β γ : Type} (g : α → β) (f : β → List γ) (l :
 
 theorem methodLines_canon (m : Method) : methodLines (canonMethod m) = methodLines m := by
   simp only [methodLines, canonMethod, values_sortKV]
-  rw [sortBy_of_pairwise _ (sortBy_pairwise (fun _ _ => indexNamesLe_ord.total _ _) (fun _ _ _ => indexNamesLe_ord.trans _ _ _) _)]
+  rw [sortBy_of_pairwise _ (sortBy_pairwise (le := paramLe) (fun _ _ => indexNamesLe_ord.total _ _) (fun _ _ _ => indexNamesLe_ord.trans _ _ _) _)]
 
 theorem classLines_canon (c : Class) : classLines (canonClass c) = classLines c := by
   simp only [classLines, canonClass, values_sortKV, values_mapVals]
